@@ -7,7 +7,8 @@ RULE = ("S->C: Dict_Gen (TLC, BFS) enumerates every insertion order of every key
         "type (all-0/all-1, min/max, adjacent in the last bit, common prefixes >= 8, runs >= 8), followed by encode, decode, lookups "
         "of every key and an absent key, an overwrite and a fresh insert on the decoded dictionary, encode, decode; Dict_GenF writes "
         "foreign dictionaries with label forms short/long/same assigned per edge. Both are replayed through tlb.HashmapE and compared "
-        "step by step. C->S: the replays and random maps (up to 2000 entries, 18 key types, random orders, Orders events) are "
+        "step by step. C->S: the replays and random maps (up to 2000 entries, 21 key types, random and clustered keys, the same pairs put in different orders by Put and through the constructor "
+        "NewHashmapE = Orders events, ConfigParams.CloneKeepingSubsetOfKeys on decoded configuration dictionaries = Subset events) are "
         "validated by Dict_Trace: every Put/Get/Enc/Dec/Load is a step of the abstract map, every encoding is a valid Patricia tree "
         "denoting exactly the map (spec decoder), listings after decode ascend in key bits, all orders give one hash. Non-trivial = "
         "segment with >= 2 keys; distinct = distinct segments.")
@@ -127,6 +128,20 @@ def run(ck):
     got = [r["line"] for r in rej]
     ck.canary("C->S: flipped tree bit / flipped Get value / dropped Put / reversed decode order rejected, original accepted",
               len(rej) == 4 and got[0] == want[0] and got[1] == want[1] and got[3] == want[3])
+    # ConfigParams.CloneKeepingSubsetOfKeys: an id listed twice in the clone / a reversed listing must be rejected
+    sub = next((e for tp in dtraces for e in vlib.read_ndjson(tp) if e.get("k") == "Subset" and e["err"] == "" and len(e["items"]) >= 2), None)
+    if sub is None:
+        raise Infra("no Subset event with two entries was recorded")
+    rs = {"k": "Reset", "n": 32, "kind": "cfg", "src": "canary"}
+    s1 = copy.deepcopy(sub); s1["items"] = s1["items"] + [s1["items"][-1]]
+    s2 = copy.deepcopy(sub); s2["items"] = list(reversed(s2["items"]))
+    s3 = copy.deepcopy(sub); s3["items"] = s3["items"][:-1]
+    vlib.write_ndjson(p, [rs, s1, rs, s2, rs, s3, rs, sub, {"k": "End"}])
+    st = (ck.states, ck.transitions, ck.traces_ok, ck.evaluations)
+    _, rej = ck.validate_segments("Dict_Trace", "trace/Dict_Trace.cfg", p, name="canary_subset")
+    ck.states, ck.transitions, ck.traces_ok, ck.evaluations = st
+    ck.canary("C->S: configuration subset listing an id twice / in descending order / with an id missing rejected, original accepted",
+              [r["line"] for r in rej] == [2, 4, 6])
     return ck.finish(rule=RULE, distinct=nontrivial)
 
 
